@@ -27,6 +27,14 @@ theorem split_exact (text : List Char) :
     ((splitFold text).1.flatMap (· ++ ['\n']) ++ (splitFold text).2 = text) ∧ ∀ l ∈ textLines text, '\n' ∉ l :=
   ⟨unsplit_splitFold text, textLines_noNl text⟩
 
+/-- **`str::lines()` against the split**: the lines `extract_near` indexes are the complete lines of the split with a
+`\r` directly before the `\n` removed, followed by the rest of the text if that is not empty.  So a location inside
+the text is either on one of those lines, or on the empty last line (a text that is empty or ends in `\n`), where
+`extract_near` takes its `None` arm and yields the empty excerpt. -/
+theorem lines_spec (text : List Char) :
+    lines text = (splitFold text).1.map stripCr ++ (if (splitFold text).2.isEmpty then [] else [(splitFold text).2]) :=
+  lines_eq text
+
 /-- **The error position lies inside the text**: `loc.line` is the number of an existing line and
 `loc.column ≤` the length of that line. -/
 theorem error_location_inside (o : Oracles) (text : List Char) (loc : Loc) (e : LexErr)
